@@ -80,9 +80,17 @@ func c01Stack(k backends.Kind, integrityOff bool) *backends.Stack {
 	if err := ensureBucket(st, "bk0"); err != nil {
 		panic(err)
 	}
+	// an object acknowledged before every case of this stack: it is read again after each of them
+	if r := put(st, "bk0", c01EarlierKey, c01EarlierBody, "X-Amz-Meta-Earlier", "yes", "Content-Type", "text/earlier"); r.Status != 200 {
+		panic("harness: " + r.String())
+	}
 	c01Stacks[id] = st
 	return st
 }
+
+const c01EarlierKey = "c01-acknowledged-earlier.bin"
+
+var c01EarlierBody = []byte("uploaded and acknowledged before anything else happened on this server")
 
 func c01CloseStacks() {
 	c01Mu.Lock()
@@ -470,6 +478,17 @@ func c01Check(cs c01Case) (ds []disc) {
 		g := get(st, "bk0", readKey)
 		if g.Status != 200 || !bytes.Equal(g.Body, body) || g.Header.Get("ETag") != et {
 			fail("lost-to-a-key-below", "after PUT of %q (answered %d) the object reads GET %d, %d bytes, ETag %s; it was acknowledged with %d bytes, ETag %s", trunc([]byte(lower), 80), lr.Status, g.Status, len(g.Body), g.Header.Get("ETag"), len(body), et)
+		}
+	}
+	// "every GET of that key": the object acknowledged before all this still comes back as it was
+	if key != c01EarlierKey && !strings.HasPrefix(key, c01EarlierKey+"/") {
+		for _, m := range []string{"GET", "HEAD"} {
+			g := s3x.Do(st.Handler, &s3x.Req{Method: m, Path: "/bk0/" + c01EarlierKey})
+			cl, _ := g.ContentLength()
+			if g.Status != 200 || (m == "GET" && !bytes.Equal(g.Body, c01EarlierBody)) || g.Header.Get("ETag") != etagOf(c01EarlierBody) || cl != int64(len(c01EarlierBody)) || g.Header.Get("X-Amz-Meta-Earlier") != "yes" || g.Header.Get("Content-Type") != "text/earlier" {
+				fail("earlier-object-changed", "the object %q, acknowledged before this upload, now answers %s %d with %d body bytes, Content-Length %d, ETag %s, X-Amz-Meta-Earlier %q, Content-Type %q; it was acknowledged with %d bytes, ETag %s", c01EarlierKey, m, g.Status, len(g.Body), cl, g.Header.Get("ETag"), g.Header.Get("X-Amz-Meta-Earlier"), g.Header.Get("Content-Type"), len(c01EarlierBody), etagOf(c01EarlierBody))
+				break
+			}
 		}
 	}
 	return ds
